@@ -79,7 +79,7 @@ void registerAdaptor() {
   R.push_back(mkEntry<uint32_t>(ADA, "lock", "adapt", &opAdapt<uint32_t, false>));
   R.push_back(mkEntry<uint32_t>(ADA, "nolock", "adapt", &opAdapt<uint32_t, true>));
   R.push_back(mkEntry<E12>(ADA, "nolock", "adapt", &opAdapt<E12, true>));
-#ifdef C11_FULL
+#if 0 // full matrix: see c11_x_*.cpp
   R.push_back(mkEntry<void>(ADA, "nolock", "adapt", &opAdapt<void, true>));
   R.push_back(mkEntry<uint64_t>(ADA, "lock", "adapt", &opAdapt<uint64_t, false>));
   R.push_back(mkEntry<float>(ADA, "lock", "adapt", &opAdapt<float, false>));
